@@ -23,6 +23,16 @@ var opNames = []struct {
 
 const definedMask = 0x1ff
 
+// total: the methods must not panic for any input
+func safeString(f func() string) (s string, panicked string) {
+	defer func() {
+		if r := recover(); r != nil {
+			panicked = fmt.Sprint(r)
+		}
+	}()
+	return f(), ""
+}
+
 func checkC16(tier string) *dr.Result {
 	c := newCollector("C16")
 	// the constants themselves (the reference above is keyed by value)
@@ -87,7 +97,7 @@ func checkC16(tier string) *dr.Result {
 	// ---- Op.String ----
 	// order: derived from the rendering of the full defined set, then every
 	// rendering must be the sub-sequence of it selected by its defined bits
-	full := fsnotify.Op(definedMask).String()
+	full, _ := safeString(func() string { return fsnotify.Op(definedMask).String() })
 	order := strings.Split(full, "|")
 	c.r.Transitions++
 	{
@@ -133,9 +143,13 @@ func checkC16(tier string) *dr.Result {
 	}
 	render := map[string]uint32{}
 	for _, v := range sdom {
-		got := fsnotify.Op(v).String()
+		got, pan := safeString(func() string { return fsnotify.Op(v).String() })
 		c.r.Transitions++
 		want := ref(v)
+		if pan != "" {
+			c.bad("string-panic", fmt.Sprintf("Op.String panics (e.g. for %#x)", v), fmt.Sprintf("Op(%#x).String() panicked: %s", v, pan), map[string]any{"op": v})
+			continue
+		}
 		if got != want {
 			c.bad("string", fmt.Sprintf("Op.String wrong (e.g. for %#x)", v), fmt.Sprintf("Op(%#x).String()=%q want %q", v, got, want), map[string]any{"op": v})
 		}
@@ -154,14 +168,18 @@ func checkC16(tier string) *dr.Result {
 	long := strings.Repeat("x", 255)
 	names := []string{"", "a", "/tmp/file", `with "quotes"`, "multi\nline", "tab\there", "bad\xffutf8", "\x00nul", "sp ace", "←", "a ← b", long, "ünï/cödé"}
 	froms := append([]string{}, names...)
-	ops := []uint32{0, 1, 2, 4, 8, 16, 3, 0x1ff, 0x200, 0x109, 128, 256}
+	ops := []uint32{0, 1, 2, 4, 8, 16, 3, 0x1ff, 0x200, 0x109, 128, 256, 0x10000, 0xffff0000}
 	for _, n := range names {
 		for _, f := range froms {
 			for _, o := range ops {
 				e := fsnotify.VerifEvent(n, fsnotify.Op(o), f)
-				got := e.String()
+				got, pan := safeString(func() string { return e.String() })
 				c.r.Transitions++
 				c.r.States++
+				if pan != "" {
+					c.bad("string-panic", "Event.String panics", fmt.Sprintf("Event{%q,%#x,from=%q}.String() panicked: %s", n, o, f, pan), nil)
+					continue
+				}
 				if msg := eventStringOK(got, ref(o), n, f); msg != "" {
 					c.bad("event-string", "Event.String does not show op text, quoted name and old name as specified: "+msg,
 						fmt.Sprintf("Event{%q,%#x,from=%q}.String()=%q: %s", n, o, f, got, msg), map[string]any{"name": n, "op": o, "from": f})
